@@ -505,6 +505,9 @@ class Node:
 
         # check that all list items are mappings and that the keys are unique
         # strings
+        if not all([item.is_mapping() for item in attr_node.seq_items()]):
+            return
+
         seen_keys = set()  # type: Set[str]
         for item in attr_node.seq_items():
             key_attr_node = item.get_attribute(key_attribute)
@@ -627,19 +630,23 @@ class Node:
         if not attr_node.is_mapping():
             return
 
+        if value_attribute is None and not all([
+                isinstance(item_value, yaml.MappingNode)
+                for _, item_value in attr_node.yaml_node.value]):
+            return      # invalid format
+
         start_mark = attr_node.yaml_node.start_mark
         end_mark = attr_node.yaml_node.end_mark
         object_list = []
         for item_key, item_value in attr_node.yaml_node.value:
             item_value_node = Node(item_value)
             if not item_value_node.is_mapping():
-                if value_attribute is None:
-                    return      # invalid format
                 ynode = item_value_node.yaml_node
                 item_value_node.make_mapping()
                 item_value_node.yaml_node.start_mark = item_key.start_mark
                 item_value_node.yaml_node.end_mark = item_value.end_mark
-                item_value_node.set_attribute(value_attribute, ynode)
+                item_value_node.set_attribute(
+                        cast(str, value_attribute), ynode)
 
             item_value_node.set_attribute(key_attribute, item_key.value)
             object_list.append(item_value_node.yaml_node)
@@ -752,12 +759,13 @@ class Node:
         if not attr_node.is_mapping():
             return
 
+        if not all([
+                isinstance(value_node, yaml.MappingNode)
+                for _, value_node in attr_node.yaml_node.value]):
+            return
+
         new_value = list()
         for key_node, value_node in attr_node.yaml_node.value:
-            if not isinstance(value_node, yaml.MappingNode):
-                raise SeasoningError(
-                    'Values must be mappings for key "{}"'.format(attribute))
-
             # filter out key atttribute
             value_node.value = [
                     (k, v) for k, v in value_node.value
@@ -882,6 +890,11 @@ class Node:
 
         attr_node = self.get_attribute(attribute)
         if not attr_node.is_mapping():
+            return
+
+        if value_attribute is None and not all([
+                isinstance(value_node, yaml.MappingNode)
+                for _, value_node in attr_node.yaml_node.value]):
             return
 
         new_value = list()
